@@ -34,6 +34,9 @@ def mlmc_case(draw, tier, with_cv=True, modes=("adaptive", "adaptive", "adaptive
             "strike": draw(_f(-1.0, 1.0)), "payoff": draw(st.sampled_from(["forward", "call", "put"])),
             "controls": draw(st.lists(st.tuples(_f(-1.0, 1.0), _f(-1.0, 1.0)), max_size=2)) if with_cv else []}
     case["rmse"] = float(f"{case['rmse_rel'] * case['notional'] * case['df'] * law['s_base']:.6g}")
+    if low_levels and criteria == "giles" and draw(st.integers(0, 7)) == 0:
+        case["rates"] = "zero-alpha"
+        case["maximum_level"] = min(case["maximum_level"], l0 + 2)
     if criteria == "run-to-max":
         case["rates"] = "given"
         case["maximum_level"] = min(case["maximum_level"], l0 + 3)
@@ -67,6 +70,10 @@ def build_engine(case, ledger_key, mode="hash", seed=None, nb_of_processes=1, sp
     if case["rates"] == "given":
         rates = ConvergenceRates(alpha=law["alpha"], beta=law["beta"], gamma=max(law["gamma"], 1e-6)) \
             if law["alpha"] >= 0.5 * min(law["beta"], max(law["gamma"], 1e-6)) else ConvergenceRates(alpha=law["alpha"])
+    elif case["rates"] == "zero-alpha":
+        # weak rate 0 (Blumenthal-Getoor index 2, compute_convergence_rates(2.0)): a configured value like any other
+        # (given alone: with beta and gamma the constructor requires alpha >= min(beta, gamma) / 2)
+        rates = ConvergenceRates(alpha=0.0)
     elif case["rates"] == "mixed":
         rates = ConvergenceRates(alpha=law["alpha"])
     else:
@@ -98,11 +105,26 @@ def build_engine(case, ledger_key, mode="hash", seed=None, nb_of_processes=1, sp
 
 
 def run_scripted_mlmc(case, mode="hash", seed=None):
+    """case["priced_before"] = factor: the same Engine object first prices the product at rmse*factor (a looser or
+    tighter run, discarded); the record then describes the second pricing only (ledger offsets in rec["offsets"])."""
     from rpylib.montecarlo.statistic.statistic import MLMCStatistics
 
     key = f"led-{next(_counter)}"
     ledger = new_ledger(key)
     engine, product, crit_calls, alloc_calls = build_engine(case, key, mode=mode, seed=seed)
+    offsets = {}
+    if case.get("priced_before"):
+        try:
+            if case["mode"] == "adaptive":
+                engine.price(product, case["rmse"] * case["priced_before"])
+            else:
+                engine.price_with_constant_mc_paths_and_level(product)
+        except PassBudgetExceeded as e:
+            LEDGERS.pop(key, None)
+            return {"ledger": ledger, "passes": [], "crit_calls": crit_calls, "alloc_calls": alloc_calls,
+                    "status": "budget", "error": str(e), "stats": None, "engine": engine, "product": product, "offsets": {}}
+        offsets = {l: ledger.count(l) for l in ledger.samples}
+        del crit_calls[:], alloc_calls[:]
     passes = []
     orig = MLMCStatistics.set_mlmc_results
 
@@ -138,4 +160,4 @@ def run_scripted_mlmc(case, mode="hash", seed=None):
         MLMCStatistics.set_mlmc_results = orig
         LEDGERS.pop(key, None)
     return {"ledger": ledger, "passes": passes, "crit_calls": crit_calls, "alloc_calls": alloc_calls,
-            "status": status, "error": error, "stats": stats, "engine": engine, "product": product}
+            "status": status, "error": error, "stats": stats, "engine": engine, "product": product, "offsets": offsets}
